@@ -16,7 +16,8 @@
    occupies its slot while it waits for a makezip job that needs a free worker. *)
 EXTENDS Naturals, FiniteSets, Sequences, TLC
 
-CONSTANTS Colls, Workers, WithKill, WithDie
+CONSTANTS Colls, Workers, WithKill, WithDie,
+          WithPost      \* TRUE: nserve.do_zip_post requests occur ("post" channel)
 
 VARIABLES job,      \* [Colls \X {"mk","rd"} -> [st, err, serial]]   st: absent | queued | running | done
           next,     \* next serial
@@ -25,7 +26,10 @@ VARIABLES job,      \* [Colls \X {"mk","rd"} -> [st, err, serial]]   st: absent 
           log       \* last step, for trace validation of the worker programs
 vars == <<job, next, wk, zipok, log>>
 
-Kinds == {"mk", "rd"}
+Kinds == {"mk", "rd", "po"}
+(* the channels a worker pulls from are the rpc_* methods of nslave.Commands: makezip and render.
+   do_zip_post adds a job to a third channel, "post" - for which no worker has a method *)
+Handled == {"mk", "rd"}
 Key(c, k) == <<c, k>>
 Absent == [st |-> "absent", err |-> "none", serial |-> 0]
 
@@ -52,14 +56,23 @@ ReqRd(c) == /\ job[Key(c, "mk")].st # "absent" /\ job[Key(c, "rd")].st = "absent
             /\ log' = <<"reqrd", c>>
             /\ UNCHANGED <<wk, zipok>>
 
+(* do_zip_post: one job on channel "post" (added without a job id: every request is a new job;
+   one per collection is enough here) *)
+ReqPo(c) == /\ WithPost /\ job[Key(c, "po")].st = "absent"
+            /\ job' = [job EXCEPT ![Key(c, "po")] = Added(@)]
+            /\ next' = next + 1
+            /\ log' = <<"reqpo", c>>
+            /\ UNCHANGED <<wk, zipok>>
+
 Queued == {x \in Colls \X Kinds : job[x].st = "queued"}
-First(x) == x \in Queued /\ \A y \in Queued : job[x].serial <= job[y].serial
+Pullable == {x \in Queued : x[2] \in Handled}
+First(x) == x \in Pullable /\ \A y \in Pullable : job[x].serial <= job[y].serial
 
 (* a free worker pulls the oldest queued job of either channel; a render worker at once re-adds
    the makezip job (wait=True) *)
 Pull(w) ==
   /\ wk[w].pc = "idle"
-  /\ \E x \in Queued :
+  /\ \E x \in Pullable :
        /\ First(x)
        /\ IF x[2] = "mk"
           THEN /\ job' = [job EXCEPT ![x].st = "running"]
@@ -125,7 +138,7 @@ Die(w) ==
   /\ log' = <<"die", w>>
   /\ UNCHANGED <<next, zipok>>
 
-Next == \/ \E c \in Colls : ReqMk(c) \/ ReqRd(c)
+Next == \/ \E c \in Colls : ReqMk(c) \/ ReqRd(c) \/ ReqPo(c)
         \/ \E w \in Workers : Pull(w) \/ RdProceed(w) \/ Die(w) \/ \E ok \in BOOLEAN : MkDone(w, ok) \/ RdDone(w, ok)
         \/ \E x \in Colls \X Kinds : Kill(x) \/ Expire(x)
 
@@ -158,6 +171,11 @@ OneRunner ==
 Starved == /\ \A w \in Workers : wk[w].pc = "rdwait"
            /\ \A w \in Workers : job[Key(wk[w].c, "mk")].st = "queued"
 NoStarvationWithoutFaults == (~WithKill /\ ~WithDie) => ~Starved
+
+(* every queued job sits in a channel some worker serves - NOT true of "post": the hazard run
+   (WithPost = TRUE) must find the counterexample; such a job can only ever time out *)
+NoOrphanChannel == \A x \in Colls \X Kinds : job[x].st = "queued" => x[2] \in Handled
+PostOnlyTimesOut == \A c \in Colls : job[Key(c, "po")].st = "done" => job[Key(c, "po")].err \in {"timeout", "killed"}
 
 SerialBound == next <= 7          \* kill + re-add creates new jobs for ever: bound for safety runs
 
